@@ -40,7 +40,17 @@ def make_server(spec, result):
         status = 200
         ct = spec.get("content_type", "application/json")
         headers = {"content-type": ct} if ct else {}
-        raw = json.dumps(good).encode()
+        raw = json.dumps(good, ensure_ascii=bool(spec.get("ensure_ascii", True))).encode()
+        enc = spec.get("encoding")
+        if k in ("none", "status") and enc:
+            # a conformant JSON body may be UTF-8 (with or without a byte order mark), UTF-16 or UTF-32 (RFC 8259 / RFC 4627),
+            # and servers mislabel the charset of UTF-8 bodies
+            text = raw.decode("utf-8")
+            if enc == "latin1-label":
+                if ct:
+                    headers = {"content-type": ct.split(";")[0] + "; charset=ISO-8859-1"}
+            else:
+                raw = text.encode(enc)
         if k == "none":
             pass
         elif k == "status":
